@@ -43,52 +43,52 @@ CHECKS = {
             "DESIGN.md §6 C04"),
     "C08": ("model_checking",
             "Frontend.tla carries a location history (k-th declaration of an element = its k-th location); the renderer records where it wrote every element; TLC compares the recorded source_contexts of the compiled module with the expected (file, line, column) facts (FrontendTrace.tla Locs action)",
-            "For every generated program (random indentation units incl. tabs, blank and comment lines, re-opened applications and types, multi-file partitions via C04's plans) every application, type, field, endpoint (simple, REST method, event, subscription) and statement must carry exactly one location per declaration, in declaration order, at the file/line/column where the renderer wrote its first character, with end not before start.",
+            "For every generated program (random indentation units incl. tabs, blank and comment lines, re-opened applications and types, an earlier field declared again in every later block of a re-opened type, multi-file partitions via C04's plans) every application, type, field, endpoint (simple, REST method, event, subscription) and statement must carry exactly one location per declaration, in declaration order, at the file/line/column where the renderer wrote its first character, with end not before start.",
             "Columns count characters (a tab is one); annotations and parameters are not tracked.",
             "DESIGN.md §6 C08"),
     "C01": ("exploration",
             "Command.tla life cycle (start -> model | error; no action for panic, fatal, timeout) model-checked by TLC; TLC-enumerated construct table (WildGen.tla) and TLC-enumerated corruptions of TLC-generated valid programs compiled by the real parser in a guarded goroutine; every recorded run validated by TLC (CommandTrace.tla)",
-            "The judge is small (a run is start then ok or error); the value is in the generator: TLC enumerates every type position x primitive x size form (incl. overflowing digits) x wrapper x optional, every name position x odd name (%-escapes, keywords, separators), each also reached through an import, plus (operation x position) near-misses of generated valid programs and corpus files truncated at line boundaries. A panic is classified by its first frame inside the repository; a fatal runtime error that kills the driver is attributed to the running scenario and the driver restarted.",
+            "The judge is small (a run is start then ok or error); the value is in the generator: TLC enumerates every type position x primitive x size form (incl. overflowing digits) x wrapper x optional, every name position x odd name (%-escapes, keywords, separators), each also reached through an import, plus (operation x position) near-misses of generated valid programs, corpus files truncated at line boundaries, and rings of 1-4 declarations referring to one another through every referring relation (mixin, alias, union, field, call, subscription, view call, foreign key; in one file and over imported files). A panic is classified by its first frame inside the repository; a fatal runtime error that kills the driver is attributed to the running scenario and the driver restarted.",
             "In-process compile with a 10 s bound (30 s confirmation); exit-status mapping of the CLI is covered by C20.",
             "DESIGN.md §6 C01"),
     "C13": ("model_checking",
             "TLA+ spec SeqDiagram.tla (reference walk of the call tree with in-progress cut; diagram machine over PlantUML lines) with the intended generator model-checked by TLC on all small call graphs; diagrams generated by the real code for TLC-generated call graphs from every start endpoint, parsed line by line into events and validated by TLC (SeqDiagramTrace.tla)",
-            "TLC first shows on every call graph over 2 applications x 2 endpoints (bodies with calls, nesting, recursion, mutual recursion) that a generator following the documented rules satisfies all clauses (declared once, activation balance, calls only while active, blocks closed, arrows = reference walk), so the clauses are satisfiable; then every diagram the real generator produces for TLC-generated programs (3 applications x 2 endpoints, calls in nested if/else/loops/groups/one-of, returns anywhere, self calls, cycles) from every start endpoint is replayed through the same machine. Termination is the wall-clock bound of the worker; an error return is admissible, a panic or hang is not.",
-            "Default labels; no blackboxes, grouping boxes or ~human/~cron participants yet; the PlantUML reader fails closed.",
+            "TLC first shows on every call graph over 2 applications x 2 endpoints (bodies with calls, nesting, recursion, mutual recursion) that a generator following the documented rules satisfies all clauses (declared once, activation balance, calls only while active, blocks closed, arrows = reference walk), so the clauses are satisfiable; then every diagram the real generator produces for TLC-generated programs (3 applications x 2 endpoints, calls in nested if/else/loops/groups/one-of, returns anywhere, self calls, cycles) from every start endpoint, plain and with blackboxes / grouping boxes, is replayed through the same machine (a blackboxed endpoint is shown and never expanded; every declared participant that carries the grouping attribute sits in exactly the box of its value). Termination is the wall-clock bound of the worker; an error return is admissible, a panic or hang is not.",
+            "Default labels; every start of every second program is also drawn with up to two other endpoints as blackboxes and, half of the time, grouped by an attribute (boxes); no ~human/~cron participants; the PlantUML reader fails closed.",
             "DESIGN.md §6 C13"),
     "C10": ("model_checking",
             "TLA+ reference interpreter Eval.tla (tagged values, operator semantics, let-programs as behaviours, Pure as an action property) model-checked by TLC; TLC-generated well-typed let-programs rendered as Sysl views, evaluated by the real evaluator, every bound variable read back after all later lets and compared with the reference by TLC (EvalTrace.tla)",
             "TLC is the independent interpreter: the meaning of each operator is written in TLA+; TLC checks determinism and purity of the design exhaustively for short programs and generates type-directed random programs (operands preferably earlier variables, so one binding feeds several later expressions; collection- and concatenation-focused configurations cross slice-capacity steps). The real evaluator's value for every variable, read back at the end, must equal the reference value (sets as sets, with duplicate detection; lists as sequences); each program is evaluated twice for repeatability.",
-            "Operand kinds accepted per operator follow the dispatch table of pkg/eval (no other definition exists); covered: integer arithmetic/comparison, string concatenation/equality, and, negation, if-then-else, list concatenation, set union, count, membership, where, transforms over lists/sets/maps, record construction, attribute access; not covered: flatten, model-typed arguments, calls between views.",
+            "Operand kinds accepted per operator follow the dispatch table of pkg/eval (no other definition exists); covered: integer arithmetic/comparison, string concatenation/equality, and, negation, if-then-else, list concatenation, set union, count, membership, where, set-typed multi-field transforms, calls of another view (scope of the callee), transforms over lists/sets/maps, record construction, attribute access; not covered: flatten, model-typed arguments, calls between views.",
             "DESIGN.md §6 C10"),
     "C14": ("model_checking",
             "TLA+ spec IntsDiagram.tla (the three builder passes as actions, pass-through walk with a walked set, Sound/Complete as predicates, termination as liveness) model-checked by TLC over every call relation x listed/excluded/pass-through choice on 3 applications; TLC-generated models run through the real builder and view generator; dependency list and PlantUML arrows judged by TLC (IntsTrace.tla)",
-            "TLC checks on the design that the arrows are sound and complete and that the pass-through walk ends on cyclic pass-through sets; for TLC-generated random models (5 applications, calls nested in every block kind, pass-through chains and cycles, projects with two views generated in one run, plain/clustered/endpoint-analysis views) the real IntsBuilder's dependency list and the arrows read back from the PlantUML text must satisfy the same Sound/Complete predicates; a crash, stack exhaustion or hang is an unexplained event.",
-            "Listed and excluded sets disjoint; ~human/~hidden not generated; endpoint-analysis view judged on the dependency list only.",
+            "TLC checks on the design that the arrows are sound and complete and that the pass-through walk ends on cyclic pass-through sets; for TLC-generated random models (5 applications, calls nested in every block kind, pass-through chains and cycles, ~human applications and ~hidden endpoints, projects with two views generated in one run, plain/clustered/endpoint-analysis views) the real IntsBuilder's dependency list and the arrows read back from the PlantUML text must satisfy the same Sound/Complete predicates; a crash, stack exhaustion or hang is an unexplained event.",
+            "Listed and excluded sets disjoint; at most one ~human application and one application with a ~hidden endpoint per model; endpoint-analysis view judged on the dependency list only. The same call relation also judges the Mermaid integration generator (reported as BEYOND-PROPERTIES, not as a verdict).",
             "DESIGN.md §6 C14"),
     "C15": ("model_checking",
             "TLA+ spec DataModel.tla (expected classes, fields and relationship multiset from the type graph; Judge over the diagram's class/field/edge lines; intended generator) model-checked by TLC on all small type graphs; diagrams generated by the real code for TLC-generated type graphs, parsed into classes, fields and relationship lines and judged by TLC (DataModelTrace.tla)",
-            "TLC shows that a generator following the rules satisfies every clause on all type graphs of 3 types x 4 reference fields (satisfiability), then judges the per-application diagram of every application of TLC-generated programs (tuples, tables, enums, primitive and collection aliases, unions; primitive, optional, set/sequence-wrapped, local, self, repeated and cross-application references; namespaced applications): exactly one class per covered type, every field listed, one relationship line per referring field to a drawn type, no line to an alias that no class declares unless the target lives in another application.",
-            "Project-manner generation with one application per view; multiplicity labels and field type texts not compared; field references (T.f) from tuples are neither required nor forbidden.",
+            "TLC shows that a generator following the rules satisfies every clause on all type graphs of 3 types x 4 reference fields (satisfiability), then judges the per-application diagram of every application of TLC-generated programs (tuples, tables, enums, primitive and collection aliases, unions; primitive, optional, set/sequence-wrapped, local, self, repeated and cross-application references; namespaced applications): exactly one class per covered type, every field listed with the type it was declared with (primitive name or reference as written, inside Set / Sequence / List), one relationship line per referring field to a drawn type, no line to an alias that no class declares unless the target lives in another application.",
+            "Project-manner generation with one application per view; multiplicity labels not compared; field references (T.f) from tuples are neither required nor forbidden.",
             "DESIGN.md §6 C15"),
     "C17": ("model_checking",
             "TLA+ spec Relmod.tla (census relation: rows = census of the compiled model per relation, statement position paths distinct, same rows twice) evaluated by TLC on every schema the real relmod.Normalize returns for TLC-generated programs (RelmodTrace.tla)",
-            "The specification states what 'lossless image' means as set equations over rows; TLC evaluates them on the rows of every recorded schema against a census the harness takes from the compiled module independently of relmod (applications, mixins, endpoints, events, REST data, statements with 0-based position paths incl. one row per alt choice, types, table keys, fields, enum items, aliases, tags, string annotations, status and type of simple return payloads). Inputs are TLC-generated programs over all declaration kinds plus call-graph programs nested up to 6 blocks deep; Normalize runs twice per model in a guarded worker (an error is an admissible refusal, a crash is not).",
+            "The specification states what 'lossless image' means as set equations over rows; TLC evaluates them on the rows of every recorded schema against a census the harness takes from the compiled module independently of relmod (applications, mixins, endpoints, events, REST data, statements with 0-based position paths incl. one row per alt choice, types, table keys, fields, enum items, aliases, tags, string annotations, status and type of simple return payloads). About half of the programs are run again with one return payload replaced by text the payload grammar refuses (the build must then be refused as a whole). Inputs are TLC-generated programs over all declaration kinds plus call-graph programs nested up to 6 blocks deep; Normalize runs twice per model in a guarded worker (an error is an admissible refusal, a crash is not).",
             "The state-space numbers in the evidence are those of the trace-validation runs (there is no separate design-level model check: the relation is stateless). Parameters, views, array annotations and source-context relations are not compared.",
             "DESIGN.md §6 C17"),
     "C16": ("model_checking",
             "TLA+ spec DbCatalog.tla (relational catalog; each emitted DDL statement an action with the database's enabling conditions; Expected(version) with transitive foreign-key types) and DbGen.tla (version histories by edit actions; intended creation script checked by TLC); the real generator's creation and delta scripts tokenised into statement events and run on the catalog machine by TLC (DbCatalogTrace.tla)",
-            "The emitted SQL is interpreted, not diffed: TLC executes every statement of every script on the catalog machine, which flags a table created twice or before a table it references, unknown or untyped columns, missing constraints, and compares the resulting catalog with Expected(version): create(v) must reach Expected(v); create(old) followed by delta(old,new) must leave every table of the new version with exactly its columns, types and keys; delta(v,v) must change nothing. Histories are TLC-generated: up to 4 tables, acyclic foreign keys to keys, plain columns and other foreign keys, composite keys, autoincrement, sized strings, 2-3 edits (add/drop/retype column, add/drop table, toggle key, add/drop reference, toggle autoincrement), tables and columns in shuffled text order, every third history spread over two files.",
+            "The emitted SQL is interpreted, not diffed: TLC executes every statement of every script on the catalog machine, which flags a table created twice or before a table it references, unknown or untyped columns, missing constraints, and compares the resulting catalog with Expected(version): create(v) must reach Expected(v); create(old) followed by delta(old,new) must leave every table of the new version with exactly its columns, types and keys; delta(v,v) must change nothing. Histories are TLC-generated: up to 4 tables, acyclic foreign keys to keys, plain columns and other foreign keys, composite keys, autoincrement, sized strings, 2-3 steps of one to three edits each (add/drop/retype column, add/drop table, toggle key, add/drop reference, toggle autoincrement), tables and columns in shuffled text order, every third history spread over two files.",
             "Postgres semantics are modelled for existence, dependency order and types only; the evidence's state counts are those of the trace-validation runs plus the simulation of DbGen with the CreateIsExact invariant.",
             "DESIGN.md §6 C16"),
     "C19": ("exploration",
             "Determinism.tla (a deterministic-function object: the first observation of (generator, option, model) fixes the output) model-checked by TLC; every generator run repeatedly in-process and in two processes on TLC-generated models with several entries per map; every observation validated by TLC (DeterminismTrace.tla)",
-            "Repetition can refute determinism, not prove it; what makes a refutation likely is the input: TLC-generated programs with two or more applications, types, fields, endpoints, parameters and enum items, call graphs, type graphs and chained mixins. About 30 (generator, option) entry points (compile itself, pb text/json/compact/binary, printer, sequence / integration (plain, clustered, endpoint analysis) / data-model diagrams, Mermaid forms, Swagger and OpenAPI 3 in yaml and json, database creation script, relational model) are each run 5 (quick) or 12 (thorough) times per process in 2 processes; TLC replays all observations through the specification's Observe action.",
+            "Repetition can refute determinism, not prove it; what makes a refutation likely is the input: TLC-generated programs with two or more applications, types, fields, endpoints, parameters and enum items, call graphs, type graphs, chained mixins and relational histories of DbGen.tla (incl. chains of foreign keys to foreign keys; the delta script between the last two versions is one more generator). About 30 (generator, option) entry points (compile itself, pb text/json/compact/binary, printer, sequence / integration (plain, clustered, endpoint analysis) / data-model diagrams, Mermaid forms, Swagger and OpenAPI 3 in yaml and json, database creation script, relational model) are each run 5 (quick) or 12 (thorough) times per process in 2 processes; TLC replays all observations through the specification's Observe action.",
             "Generators are called through library entry points; failing generators contribute nothing here (C20); importers are not included.",
             "DESIGN.md §6 C19"),
     "C07": ("exploration",
             "CompileConc.tla (global lexer-state map: allocate, get-or-create, delete at end, address reuse) model-checked by TLC (and its never-delete variant shown to violate the invariants); concurrent compilations of TLC-generated and corpus sources under the Go race detector; every result validated by TLC against the sequential baseline (Determinism.tla Observe) and the quiescence clause (CompileConcTrace.tla)",
-            "The protocol that makes the lexer state safe is model-checked exhaustively for 3 parses x 2 addresses; the implementation is then run, built with -race and the verif tag, in waves of 2/8/64/16 goroutines under GOMAXPROCS 1/2/4/16 with random start offsets and forced GC between waves (address reuse), over TLC-generated programs (incl. chained mixins, whose result depends on post-processing order), corpus files and import closures with diamonds. Every concurrent text and JSON digest must equal the first sequential observation of the same source; the global lexer-state map must be empty at every quiescent point; any race-detector report is a violation.",
+            "The protocol that makes the lexer state safe is model-checked exhaustively for 3 parses x 2 addresses; the implementation is then run, built with -race and the verif tag, in waves of 2/8/64/16 goroutines under GOMAXPROCS 1/2/4/16 with random start offsets and forced GC between waves (address reuse), over TLC-generated programs (incl. chained mixins, whose result depends on post-processing order), corpus files and import closures with diamonds. Every text and JSON digest must equal the first observation of the same source (every second driver process starts cold: 64 concurrent compilations before anything else has been compiled, the sequential pass last); the global lexer-state map must be empty at every quiescent point; any race-detector report is a violation.",
             "Schedules are sampled, not enumerated; the race detector only sees executed interleavings.",
             "DESIGN.md §6 C07"),
     "C09": ("model_checking",
